@@ -189,10 +189,10 @@ _ALL = {
         technique="allocation-width rule; fact walker; must-validate",
     ),
     "C16": dict(
-        want=["A3c", "D7", "P5b", "P20"],
+        want=["A3c", "D7", "P5b", "P20", "D7b"],
         explanation=("Decides composition consistency: composites forward every semantic parameter to the primitives they are "
                      "defined by (A3c); var uses the three primitives with one shared keyword set and std delegates to var (D7)."
-                     ' Also: label-sorted arrays are filtered only by selectors in the same order (P5b); the composites apply no null-suppressing function (P20).'),
+                     ' Also: label-sorted arrays are filtered only by selectors in the same order (P5b); the composites apply no null-suppressing function (P20); the value returned by var is (sum_squares - sum^2/count)/(count - ddof) in canonical arithmetic form and std is its square root (D7b).'),
         not_decided=["variance accuracy, quantile equality with NumPy, apply semantics, densities summing to 100"],
         technique="parameter-forwarding over resolved call sites",
     ),
